@@ -164,9 +164,13 @@ class Scenario:
                         kind, obj = stack.pop()
                         exited[kind] = obj
                         if st["k"] == "raise":
+                            # the class of the exception that leaves the context is part of the scenario
+                            cls = {"OSError": FileNotFoundError, "BrokenPipe": BrokenPipeError, "KeyboardInterrupt": KeyboardInterrupt,
+                                   "SystemExit": SystemExit, "GeneratorExit": GeneratorExit, "ValueError": ValueError,
+                                   "Blocking": BlockingIOError}.get(st.get("cls", ""), RuntimeError)
                             try:
-                                raise RuntimeError("boom")
-                            except RuntimeError:
+                                raise cls("boom")
+                            except BaseException:
                                 obj.__exit__(*sys.exc_info())
                         else:
                             obj.__exit__(None, None, None)
@@ -324,6 +328,16 @@ class C12(TraceCheck):
                     yield [init, E("Input", sigint=sig), OP("request"), X, E("Input", sigint=sig), OP("request"), X,
                            E("Input", sigint=sig), OP("trigger"), X]
                 yield [init, E("Nonblocking"), E("Input"), OP("request"), X, X]
+                # every context left through exceptions of different classes
+                for cls in ("OSError", "BrokenPipe", "Blocking", "KeyboardInterrupt", "SystemExit", "GeneratorExit", "ValueError"):
+                    RX = dict(R, cls=cls)
+                    yield [init, E("Input", sigint=1, nostart=1), OP("request_key"), RX]
+                    yield [init, E("Input"), RX]
+                    yield [init, E("Fullscreen", hide=1), OP("render"), RX]
+                    yield [init, E("CursorAware", hide=1), OP("render"), RX]
+                    yield [init, E("Cbreak"), RX]
+                    yield [init, E("Nonblocking"), RX]
+                    yield [init, E("CursorAware"), E("Input", sigint=1), OP("request"), RX, RX]
                 # a context object constructed first and entered later, or used again, after the terminal's
                 # attributes / flags were changed in between (by the application or by another context)
                 def B(kind, **o):
